@@ -10,6 +10,7 @@ package symgo
 // to the concrete checksum.
 
 import (
+	"go/token"
 	"go/types"
 	"hash/crc64"
 )
@@ -76,4 +77,40 @@ func init() {
 		data, _ := args[0].([]value)
 		return mkVal(c14CrcUpdate(mkConst(64, 0), c14TablePoly(args[1]), data), types.Uint64)
 	}
+}
+
+// c14Redirect: a callee outside the package under test is replaced by a model function written
+// as ordinary Go in the C14 harness (same mechanism as c06Redirect; chains to an earlier
+// registration for the same callee so that two properties can cut the same function).
+func c14Redirect(ext, harness string) {
+	prev := externals[ext]
+	var self externalFn
+	self = func(fr *frame, args []value) value {
+		if h := harnessFunc(fr.i, harness); h != nil {
+			stub(ext + " (cut: model function " + harness + " of the harness)")
+			return call(fr.i, fr, token.NoPos, h, args)
+		}
+		if prev != nil {
+			return prev(fr, args)
+		}
+		fn := fr.fn
+		if fn.Blocks == nil {
+			if fr.i.initializing {
+				return opaqueResult(fn)
+			}
+			panic(pathAbort{"unsupported", "no model for external function " + fn.String()})
+		}
+		delete(externals, ext)
+		defer func() { externals[ext] = self }()
+		return callSSA(fr.i, fr.caller, token.NoPos, fn, args, nil)
+	}
+	externals[ext] = self
+}
+
+func init() {
+	const repo = "github.com/rpcpool/yellowstone-faithful/"
+	c14Redirect(repo+"iplddecoders.DecodeTransaction", "c14Model_DecodeTransaction")
+	c14Redirect(repo+"iplddecoders.DecodeDataFrame", "c14Model_DecodeDataFrame")
+	c14Redirect(repo+"solana-tx-meta-parsers.ParseTransactionStatusMetaContainer", "c14Model_ParseMeta")
+	c14Redirect("github.com/gagliardetto/binary.UnmarshalBin", "c14Model_UnmarshalBin")
 }
